@@ -201,6 +201,10 @@ impl Router {
                     IpcSelectionResult::MessageReceived(id, message) => {
                         self.handlers.get_mut(&id).unwrap()(message)
                     },
+                    // The `RouterProxy` is gone: nobody can talk to us any more.
+                    IpcSelectionResult::ChannelClosed(id) if id == self.msg_wakeup_id => {
+                        break 'run;
+                    },
                     IpcSelectionResult::ChannelClosed(id) => {
                         let _ = self.handlers.remove(&id).unwrap();
                     },
